@@ -54,6 +54,8 @@ CFGS = {
     "MC_longlife": dict(kind="mc", doc="an operator whose default allocation lifetime (2 h) is above the one-hour ceiling of requested lifetimes",
                         PeerIPs='{"A"}', PeerPorts='{1}', ChanNums='{16384}', LifeReqs='<- MCLifeTime', Txids='{"t1", "t2"}',
                         DefaultLife='7200', PermTO='300', ChanTO='600', MaxDepth='6'),
+    "MC_stream3": dict(kind="mc", doc="two stream clients with the same IP and port connected to two local IPs of one wildcard listener (5-tuples differ in the server IP only)",
+                       Clients='{"s1", "sy"}', PeerIPs='{"A"}', PeerPorts='{1}', ChanNums='{16384}', LifeReqs='<- MCLifeAbsent0', MaxDepth='6'),
     # ---- Engine A generation slices (every edge printed) ----------------------------------
     "GEN_relayA": dict(kind="gen", doc="one client: permissions, channels, both data paths, expiry (perm 2, chan 3, life 5)",
                        PermSeqs='<- MCPermSeqsAB', MaxDepth='6'),
@@ -95,6 +97,8 @@ CFGS = {
     "GEN_longlife": dict(kind="gen", doc="default allocation lifetime 2 h, above the one-hour ceiling of requested lifetimes",
                          PeerIPs='{"A"}', PeerPorts='{1}', ChanNums='{16384}', LifeReqs='<- MCLifeTime', Txids='{"t1", "t2"}',
                          DefaultLife='7200', PermTO='300', ChanTO='600', MaxDepth='4'),
+    "GEN_stream3": dict(kind="gen", doc="two stream clients with the same IP and port connected to two local IPs of one wildcard listener",
+                        Clients='{"s1", "sy"}', PeerIPs='{"A"}', PeerPorts='{1}', ChanNums='{16384}', LifeReqs='<- MCLifeAbsent0', MaxDepth='5'),
     "GEN_chan3": dict(kind="gen", doc="three channel numbers bound at different times: a binding that is not the newest expires while the others live on",
                       PeerIPs='{"A"}', PeerPorts='{1, 2, 3}', ChanNums='{16384, 16385, 16386}', PermSeqs='<- MCPermSeqs1', LifeReqs='<- MCLifeAbsent',
                       DefaultLife='9', PermTO='4', ChanTO='4', MaxDepth='8'),
